@@ -254,6 +254,8 @@ def render_go(pkg, module="vmod"):
     head = "package %s\n\n" % pkg["name"]
     if imports:
         head += "import (\n" + "".join("\t%s\n" % i for i in sorted(imports)) + ")\n\n"
+    if pkg.get("generate_line"):
+        head += "//go:generate shoot %s\n\n" % pkg["generate_line"]
     return {pkg["name"] + ".go": head + text}
 
 
@@ -511,6 +513,15 @@ def gen_struct_pkg(rng, name, nstructs=None, p_embed=0.6, p_shadow=0.45, p_new=0
         tps = []
         if generic:
             if rng.random() < 0.3:
+                # three groups, two NON-adjacent ones with the same constraint (the order of NewT's type
+                # parameters must be the struct's, not "grouped by constraint")
+                c1, c2 = rng.choice([("comparable", "any"), ("any", "Number"), ("any", "comparable"), ("Number", "any")])
+                uses_number = uses_number or "Number" in (c1, c2)
+                tps = [{"names": ["K"], "con": ("ident", c1)}, {"names": ["V"], "con": ("ident", c2)},
+                       {"names": ["W"], "con": ("ident", c1)}]
+                if rng.random() < 0.3:
+                    tps.append({"names": ["X"], "con": ("ident", c2)})
+            elif rng.random() < 0.3:
                 tps = [{"names": ["K", "V"], "con": ("ident", rng.choice(["comparable", "any"]))}]
             elif rng.random() < 0.5:
                 tps = [{"names": ["T"], "con": ("ident", "any")}, {"names": ["U"], "con": ("ident", "comparable")}]
@@ -659,3 +670,47 @@ def strip_defs_of_embedded(pkg):
             if not fd["names"] and fd["tag"] is not None and 'new:"-"' in fd["tag"]:
                 fd["tag"] = None
     return pkg
+
+
+def _same_length_literal(text):
+    """another literal of the same length (digits and the letters inside double quotes are changed)"""
+    out, inq = [], False
+    for ch in text:
+        if ch == '"':
+            inq = not inq
+            out.append(ch)
+        elif inq and ch.isalpha() and ch.isascii():
+            out.append("b" if ch == "a" else "a" if ch.islower() else "B" if ch == "A" else "A")
+        elif not inq and ch.isdigit():
+            out.append("7" if ch == "0" else str(int(ch) % 9 + 1))
+        else:
+            out.append(ch)
+    return "".join(out)
+
+
+def length_preserving_edit(pkg):
+    """an EARLIER version of the package: the same declarations with other def= literals of the same length
+    (generate on it, then on pkg: the second run must replace the first one's outputs).  None if nothing to edit."""
+    import copy
+    pre = copy.deepcopy({k: v for k, v in pkg.items() if not k.startswith("_")})
+    changed = False
+    for sd in pre["structs"]:
+        for fd in sd["fields"]:
+            lines = []
+            for line in fd["comment"]:
+                m = _SHOOT_LINE.match(line)
+                if not m:
+                    lines.append(line)
+                    continue
+                parts = []
+                for part in m.group(2).split(";"):
+                    m2 = re.match(r"^(\s*def(?:ault)?=)(.*)$", part, re.I)
+                    if m2:
+                        new = _same_length_literal(m2.group(2))
+                        changed = changed or new != m2.group(2)
+                        part = m2.group(1) + new
+                    parts.append(part)
+                lines.append(m.group(1) + ";".join(parts))
+            fd["comment"] = lines
+            fd["doc"] = doc_text(lines)
+    return pre if changed else None
